@@ -183,6 +183,9 @@ func buildInput(r *rand.Rand, src int, names []string, order string, n int, big 
 		if rs[i].ref == "*" {
 			rec.Flags |= sam.Unmapped
 			rec.Cigar = nil
+		} else if r.Intn(5) == 0 {
+			// an unmapped read stored at its mate's position: placed, and ordered by that position
+			rec.Flags |= sam.Unmapped
 		}
 		if rs[i].mref != "" {
 			rec.MateRef = h.Refs()[idx(rs[i].mref)]
